@@ -398,6 +398,10 @@ ShadowFile(tbl) ==
   [EmptyCfg EXCEPT !.meta = [EmptyMeta EXCEPT !.imports =
      [j \in 1..Len(tbl) |-> [n |-> tbl[j].n,
                               v |-> PathText(IF tbl[j].segs = <<"probe.test", "fy">> THEN <<"probe.test", "fx">> ELSE <<"probe.test", "fy">>)]]]]
+(* the target of an alias may be written quoted, like every import path (regex/consts.go: MetaImport = Import); it denotes *)
+(* the same package                                                                                                       *)
+QuoteTargets(cfg) ==
+  [cfg EXCEPT !.meta.imports = [j \in 1..Len(cfg.meta.imports) |-> [n |-> cfg.meta.imports[j].n, v |-> "\"" \o cfg.meta.imports[j].v \o "\""]]]
 ImportScript == <<OpGet("s1"), OpGet("s2"), OpGetParam("p1"), OpGet("s3")>> \o (IF IsSet(cfg0.services["s1"].getter) THEN <<OpGetter("GetS1")>> ELSE <<>>)
 
 -----------------------------------------------------------------------------
@@ -455,11 +459,13 @@ Init ==
           /\ files0 = <<ExtCases[i].cfg>> /\ cfg0 = ExtCases[i].cfg /\ st = NewState(ExtCases[i].cfg)
           /\ hist = <<>> /\ aux = [idx |-> i]
   ELSE IF IsImports
-  THEN \E t \in ImportQuads(0), shadowed \in BOOLEAN :
+  THEN \E t \in ImportQuads(0), shadowed \in BOOLEAN, quoted \in BOOLEAN :
           /\ shadowed => (Len(t[1]) >= 1 /\ t[4] = "typed")
-          /\ files0 = (IF shadowed THEN <<ShadowFile(t[1])>> ELSE <<>>) \o <<ImportCfg(t[1], t[2], t[3], t[4])>>
+          /\ quoted => (Len(t[1]) >= 1 /\ t[4] = "typed" /\ t[2] = t[3] /\ ~shadowed)
+          /\ files0 = (IF shadowed THEN <<ShadowFile(t[1])>> ELSE <<>>)
+                       \o <<(IF quoted THEN QuoteTargets(ImportCfg(t[1], t[2], t[3], t[4])) ELSE ImportCfg(t[1], t[2], t[3], t[4]))>>
           /\ cfg0 = MergeAll(files0)
-          /\ SameCfg(cfg0, ImportCfg(t[1], t[2], t[3], t[4]))       \* the later file's table is the effective one (Merge.tla)
+          /\ SameCfg(cfg0, files0[Len(files0)])       \* the later file's table is the effective one (Merge.tla)
           /\ st = NewStateEnv(ImportCfg(t[1], t[2], t[3], t[4]), ImportEnv(t[1], t[2], t[3]))
           /\ hist = <<>> /\ aux = ImportAux(t[1], t[2], t[3])
   ELSE \E f \in FileSets : files0 = f /\ cfg0 = MergeAll(f) /\ st = NewState(MergeAll(f)) /\ hist = <<>> /\ aux = <<>>
